@@ -294,19 +294,24 @@ func (q *Queue) run(highestKey uint64) {
 				continue
 			}
 			key := uint64tob(req.idx)
+			newHighest := highestKey
 			err := q.db.Update(func(tx *bbolt.Tx) error {
 				if err := tx.Bucket(bucketName).Put(key, req.item); err != nil {
 					return err
 				}
-				stats.Add(fifoSize, 1)
 				if req.idx > highestKey {
 					if err := setHighestKey(tx, req.idx); err != nil {
 						return err
 					}
-					highestKey = req.idx
+					newHighest = req.idx
 				}
 				return nil
 			})
+			if err == nil {
+				// Only a committed transaction may advance the in-memory state.
+				stats.Add(fifoSize, 1)
+				highestKey = newHighest
+			}
 			req.respChan <- enqueueResp{err: err}
 			if err == nil && nextEv == nil {
 				if err := loadHead(); err != nil {
